@@ -1,6 +1,7 @@
 SPECIFICATION TraceSpec
 CONSTANTS
   ReserveK = {}
+  GapK = {}
   AppendK = {}
   MemberCounts = {}
   FieldCounts = {}
